@@ -81,6 +81,10 @@ func init() {
 		"vfIteInt":      vfIteInt,
 		"vfConcrete":    vfConcrete,
 		"vfThread":      vfThread,
+		"vfRunewidthEastAsian": func(in *Interp, fn *ssa.Function, a []Value) Value {
+			in.setRwEastAsian(a[0].(*Term))
+			return nil
+		},
 		"vfStrEq":       vfStrEq,
 		"vfTag":         vfTag,
 		"vfPar":         vfPar,
@@ -859,7 +863,25 @@ func (in *Interp) declareStrUF(prefix string, n int, eval func(string) uint64) s
 }
 
 func realStringWidth(s string) int {
-	return runewidth.StringWidth(s)
+	return rwNarrow.StringWidth(s)
+}
+
+// the two width rules go-runewidth can be configured with (its environment detection sets EastAsianWidth)
+var rwNarrow = &runewidth.Condition{EastAsianWidth: false, StrictEmojiNeutral: true}
+var rwEastAsianCond = &runewidth.Condition{EastAsianWidth: true, StrictEmojiNeutral: true}
+
+// widthTerm is the width of a concrete string under the current value of the EastAsianWidth flag.
+func (in *Interp) widthTerm(s string) *Term {
+	n := rwNarrow.StringWidth(s)
+	ea := in.rwEastAsian()
+	if ea.IsFalse() {
+		return in.intTerm(n)
+	}
+	e := rwEastAsianCond.StringWidth(s)
+	if e == n {
+		return in.intTerm(n)
+	}
+	return in.tt.Ite(ea, in.intTerm(e), in.intTerm(n))
 }
 
 // iStringWidth models runewidth.StringWidth. Concrete runs are measured by the real function; a
@@ -872,7 +894,7 @@ func iStringWidth(in *Interp, fn *ssa.Function, a []Value) Value {
 		in.logRunewidthGlobal("rd")
 	}
 	if cs, ok := concreteString(s); ok {
-		return in.intTerm(realStringWidth(cs))
+		return in.widthTerm(cs)
 	}
 	sum := in.tt.Const(64, 0)
 	okAdditive := true
@@ -882,7 +904,7 @@ func iStringWidth(in *Interp, fn *ssa.Function, a []Value) Value {
 			if !utf8.Valid(run) {
 				okAdditive = false
 			}
-			sum = in.tt.Bin(OpAdd, sum, in.intTerm(realStringWidth(string(run))))
+			sum = in.tt.Bin(OpAdd, sum, in.widthTerm(string(run)))
 			run = nil
 		}
 	}
@@ -909,6 +931,9 @@ func iStringWidth(in *Interp, fn *ssa.Function, a []Value) Value {
 	flush()
 	if okAdditive {
 		return sum
+	}
+	if !in.rwEastAsian().IsFalse() {
+		in.unsupported("width of symbolic non-ASCII text while go-runewidth's EastAsianWidth flag is set or symbolic")
 	}
 	name := in.declareStrUF("runewidth", len(s.b), func(x string) uint64 { return uint64(realStringWidth(x)) })
 	t := in.tt.UF(name, 64, s.b)
@@ -1441,6 +1466,9 @@ func (in *Interp) logAccess(kind string, p PtrV) {
 		return
 	}
 	in.events = append(in.events, Event{Thread: in.curThread, Kind: kind, Obj: p.obj.id, Path: pathKey(p.path), PCLen: len(in.pc)})
+	if p.obj == in.rwCond && in.rwCond != nil {
+		in.logRunewidthGlobal(kind)
+	}
 }
 
 func (in *Interp) logObj(kind string, o *Obj) {
